@@ -62,6 +62,12 @@ class ExtRef(object):
     def __hash__(self):
         return hash(self.dotted)
 
+    def __or__(self, other):
+        # flag expressions of external modules (re.I | re.A): kept symbolic, "re.I | re.A" (regexast.flag_value reads it)
+        if isinstance(other, ExtRef):
+            return ExtRef("%s | %s" % (self.dotted, other.dotted))
+        return NotImplemented
+
 
 class EnumMember(object):
     def __init__(self, cls, name, value=None):
